@@ -224,6 +224,23 @@ def run(pid, tier, seed):
                 for o in ([[]] if tier == "quick" else [[], ["--blocksz", "64"], ["--blocksz", "1024"]]):
                     cases.append(("utmp:" + label, Case({"wtmp": blob}, ["--color", "never"] + o + ["wtmp"]),
                                   Case(files, ["--color", "never"] + o + [arg])))
+        # record files whose first records are empty (a lastlog is indexed by uid: the first entry of an ordinary user sits
+        # at 1000 x 292 bytes), and record files at block sizes of a few records -- the record-type scan then runs past
+        # block zero before anything is read for printing
+        for nlead, recs in ((1000, [(1000, 1), (1001, 2), (1003, 2), (1010, 3)]), (3, [(3, 1), (5, 2)])):
+            last = max(u for u, _ in recs)
+            byuid = dict(recs)
+            blob = b"".join(c08.rec_bytes(u, byuid.get(u, 0), layout="lastlog") for u in range(last + 1))
+            for label, files, arg in containers(rng, "lastlog", blob, tier):
+                for o in ([[]] if nlead > 100 else [[], ["--blocksz", "512"]]):
+                    cases.append(("utmp:" + label, Case({"lastlog": blob}, ["--color", "never"] + o + ["lastlog"]),
+                                  Case(files, ["--color", "never"] + o + [arg])))
+        for nrec in (3, 12):
+            blob = b"".join(c08.rec_bytes(i + 1, 1 + (i * 7) % 97, usec=i % 5) for i in range(nrec))
+            for label, files, arg in containers(rng, "wtmp", blob, tier):
+                for o in ([["--blocksz", "1024"]] if tier == "quick" else [["--blocksz", "512"], ["--blocksz", "2048"]]):
+                    cases.append(("utmp:" + label, Case({"wtmp": blob}, ["--color", "never"] + o + ["wtmp"]),
+                                  Case(files, ["--color", "never"] + o + [arg])))
         # a year-less text log is dated from the modification time: the plain file's, the one stored in the gzip header
         # (0 = "no time stamp": then the .gz file's own), the tar member's -- the dated output (-u) must be the same
         yl = b"".join(b"%s %2d %02d:%02d:%02d host app[%d]: yearless %d\n" % (mon, day, hh, mm, 7, 100 + i, i)
